@@ -1,5 +1,5 @@
 (* C12 — diagnosis of the generated-table obligations: prints the offending entries (no proofs involved). *)
-From V Require Import Base.Common Base.C11_Http Gen.ProxyRoutes Model.C12_Proxy.
+From V Require Import Base.Common Base.C11_Http Gen.ProxyRoutes Model.C12_Proxy Model.C12_Check Model.C12_Tables.
 Open Scope string_scope.
 Open Scope list_scope.
 
@@ -12,6 +12,11 @@ Print diag_proxy_error_sites_return.
 Definition diag_proxy_handlers_known := Eval vm_compute in
   flat_map (fun r => let '(n, _, h, _) := r in match handler_of_name h with HUnknown => [n] | _ => [] end) hijack_routes.
 Print diag_proxy_handlers_known.
+
+(* hijack routes: real differences from the hand-written spec_paths (proxy_table_spec): a route on one side only, or two routes
+   that can match a common path and are registered in the opposite order; a reorder of routes that are apart gives [] *)
+Definition diag_proxy_routes_table := Eval vm_compute in croutes_diff (compile_routes hijack_prefix hijack_routes) (expand spec_paths).
+Print diag_proxy_routes_table.
 
 Definition size_proxy_routes := Eval vm_compute in List.length hijack_routes.
 Print size_proxy_routes.
